@@ -153,7 +153,8 @@ Apis(ca) ==
     [] ca = "rm"  -> {"canon", "value", "forfn", "forrule", "typed", "nested", "sliceroot",
                       "overtag"}   \* the field also carries a tag rule (one that never fires): the rule map replaces it entirely
     [] ca = "var" -> {"canon", "joined", "object"}
-    [] ca \in {"map", "mapiface"} -> {"canon", "sliceroot", "mapfn", "object"}
+    [] ca \in {"map", "mapiface"} -> {"canon", "sliceroot", "mapfn", "object",
+                                      "extrakey", "extrakeys"}   \* the map also holds one / two entries that have no rule at all
     [] ca = "url" -> {"canon", "ptr", "object"}
 
 ReqMarker(q) == IF "requiredC" \in Range(q) THEN "REQMSG" ELSE "it is required"
